@@ -13,7 +13,7 @@ Open Scope N_scope.
 
 Lemma rloc_eqb_spec : forall a c, rloc_eqb a c = true <-> a = c.
 Proof.
-  intros [| | | |i] [| | | |j]; cbn; split; intros H; try reflexivity; try discriminate.
+  intros [| | | | |i] [| | | | |j]; cbn; split; intros H; try reflexivity; try discriminate.
   - apply Nat.eqb_eq in H; now subst.
   - inversion H; apply Nat.eqb_refl.
 Qed.
